@@ -29,6 +29,9 @@ const (
 	cstFor      = "For"
 	cstLoop     = "Loop"
 	cstWhile    = "While"
+
+	cstBreakable   = "Breakable"
+	cstContinuable = "Continuable"
 )
 
 const (
